@@ -130,6 +130,8 @@ class Interp(object):
                 return len(c.items) > 0
             if isinstance(c, PDict):
                 return len(c.items) > 0
+            if isinstance(c, KVDict):
+                return Or(*[p for p, k, v in c.entries])
             if isinstance(c, SList):
                 return to_z3(c.n) > 0 if is_sym(c.n) else c.n > 0
             if isinstance(c, NSet):
@@ -406,6 +408,9 @@ class Interp(object):
                 return FuncVal(obj.methods[name], obj.module, obj.name)
             raise Undecided('class attribute %s.%s' % (obj.name, name))
         if isinstance(obj, ModVal):
+            short = obj.mod.relpath.split('/')[-1][:-3]
+            if '%s.%s' % (short, name) in self.externals:
+                return ExtName('%s.%s' % (short, name))
             return self.lookup_global(name, obj.mod)
         if isinstance(obj, ExtName):
             return ExtName(obj.dotted + '.' + name)
@@ -554,6 +559,17 @@ class Interp(object):
                     return None
                 vals.append(v)
             return NMap(pres, vals)
+        if isinstance(a, KVDict):
+            if len(a.entries) != len(b.entries):
+                return None
+            ents = []
+            for (p1, k1, v1), (p2, k2, v2) in zip(a.entries, b.entries):
+                k, ok1 = self._merge_val(c, k1, k2)
+                v, ok2 = self._merge_val(c, v1, v2)
+                if not (ok1 and ok2):
+                    return None
+                ents.append((Ite(c, p1, p2) if p1 is not p2 else p1, k, v))
+            return type(a)(ents)
         if isinstance(a, PDict):
             if a.default != b.default:
                 return None
@@ -645,7 +661,7 @@ class Interp(object):
     def st_For(self, s, fr):
         spec = self.find_loop_spec(s, fr)
         it = self.eval(s.iter, fr)
-        if spec is not None:
+        if spec is not None and self._needs_loop_contract(it):
             return spec.run_for(self, s, fr, it)
         items = self.iter_items(it, s, fr)
         for guard, x in items:
@@ -663,6 +679,15 @@ class Interp(object):
             except _Continue:
                 continue
         self.exec_block(s.orelse, fr)
+
+    def _needs_loop_contract(self, it):
+        from .builtins_ import SymRange
+        if isinstance(it, SymRange):
+            return True
+        if isinstance(it, Ref):
+            c = self.ctx.cell(it)
+            return isinstance(c, SList) and is_sym(c.n)
+        return False
 
     def _merge_guarded(self, guard, x, s, fr):
         fake = ast.If(test=ast.Constant(value=True), body=[ast.Assign(targets=[s.target], value=_ValNode(x), lineno=s.lineno)] + s.body,
@@ -684,6 +709,10 @@ class Interp(object):
             return [(True, x) for x in it]
         if isinstance(it, Ref):
             c = self.ctx.cell(it)
+            if hasattr(c, 'iter_items'):
+                return c.iter_items(self)
+            if isinstance(c, KVDict):
+                return [(p, k) for p, k, v in c.entries if p is not False]
             if isinstance(c, PList):
                 return [(True, x) for x in c.items]
             if isinstance(c, PDict):
@@ -744,6 +773,8 @@ class Interp(object):
         return self.ctx.alloc(PList(list(self.ex_Tuple(e, fr))))
 
     def ex_Dict(self, e, fr):
+        if not e.keys:
+            return self.ctx.alloc(KVDict())
         d = {}
         for k, v in zip(e.keys, e.values):
             kk = self.eval(k, fr)
@@ -1054,6 +1085,8 @@ class Interp(object):
                 if is_sym(x) or isinstance(x, (Opt, NodeV, NodeId, Opaque)):
                     return Or(*[self.equals(x, k) for k in c.items])
                 return self.dict_key(x) in c.items
+            if isinstance(c, KVDict):
+                return Or(*[And(p, self.equals(x, k)) for p, k, v in c.entries])
             if isinstance(c, NSet):
                 x = self.unwrap(x, 'in-set')
                 if not isinstance(x, NodeV):
@@ -1134,7 +1167,7 @@ class Interp(object):
         raise Undecided('slice of %r' % (obj,))
 
     def get_item(self, obj, idx):
-        idx = self.unwrap(idx, 'index') if not isinstance(obj, Ref) or not isinstance(self.ctx.cell(obj), (PDict,)) else idx
+        idx = self.unwrap(idx, 'index') if not isinstance(obj, Ref) or not isinstance(self.ctx.cell(obj), (PDict, KVDict)) else idx
         if isinstance(obj, tuple):
             if is_sym(idx):
                 raise Undecided('symbolic index into tuple')
@@ -1169,6 +1202,12 @@ class Interp(object):
                     self.ctx.setcell(obj, PDict(d, c.default))
                     return v
                 self.raise_('KeyError', k)
+            if isinstance(c, KVDict):
+                for p, k, v in c.entries:
+                    hit = And(p, self.equals(idx, k))
+                    if (self.ctx.decide(hit, 'haskey') if is_sym(hit) else hit):
+                        return v
+                self.raise_('KeyError', idx)
             if isinstance(c, SList):
                 n = c.n
                 if not is_sym(idx) and idx < 0:
@@ -1216,6 +1255,11 @@ class Interp(object):
         idx = self.eval(sl, fr)
         if isinstance(obj, Ref):
             c = self.ctx.cell(obj)
+            if isinstance(c, KVDict):
+                ents = [(And(p, Not(self.equals(idx, k))), k, x) for p, k, x in c.entries]
+                ents = [e for e in ents if e[0] is not False]
+                self.ctx.setcell(obj, type(c)(ents + [(True, idx, v)]))
+                return
             if isinstance(c, PDict):
                 if hasattr(c, 'set_item'):
                     return c.set_item(self, obj, idx, v)
@@ -1257,6 +1301,12 @@ class Interp(object):
                     return
                 raise Undecided('del slice')
             idx = self.eval(sl, fr)
+            if isinstance(c, KVDict):
+                pres = Or(*[And(p, self.equals(idx, k)) for p, k, v in c.entries])
+                if not (self.ctx.decide(pres, 'haskey') if is_sym(pres) else pres):
+                    self.raise_('KeyError')
+                self.ctx.setcell(obj, type(c)([(And(p, Not(self.equals(idx, k))), k, x) for p, k, x in c.entries]))
+                return
             if isinstance(c, PDict):
                 k = self.dict_key(idx)
                 if k not in c.items:
